@@ -1,6 +1,7 @@
 package props
 
 import (
+	"crypto/x509"
 	"fmt"
 	"math/rand/v2"
 	"regexp"
@@ -1008,6 +1009,7 @@ func runC01(c *mon.Ctx) {
 	// key roll-over on a long-lived SP: content signed with a certificate that left the store is no longer honoured
 	rb := BaseTime(c.Seed)
 	runStoreRotation(c, c.N(200, 5000), rb, rb.Add(2*time.Hour), []string{"sso-resp", "sso-assert"})
+	runCopiedProvider(c, c.N(120, 3000), rb.Add(time.Hour))
 	// ---- documents around the dependency's per-walk element budget: whatever a walk does when it gives up, an
 	// unsigned assertion next to a large signed one is never let through ----
 	nob := c.N(48, 600)
@@ -1159,4 +1161,57 @@ func dupNSDecl(r *rand.Rand, s string) string {
 		return s[:m[0]] + junk + s[m[0]:]
 	}
 	return s[:m[1]] + junk + s[m[1]:]
+}
+
+// runCopiedProvider: an application copies a provider that has already validated messages (one configuration per
+// tenant, made from a template) and gives the copy its own certificate store; the clock, key stores and everything else
+// are shared. The copy trusts what its own store holds, the template what the template's store holds - whatever either
+// of them has validated before.
+func runCopiedProvider(c *mon.Ctx, n int, now time.Time) {
+	for k := 0; k < n; k++ {
+		cs := c.Begin("copied-provider", k)
+		if cs == nil {
+			continue
+		}
+		r := cs.Rand()
+		w := NewWorld(now)
+		tenantA, tenantB := w.IdP[r.IntN(2)], w.IdP[2]
+		mk := func(signer *sim.Cert, respLevel bool) string {
+			rec := sim.GenuineResponse(w.Env, 1)
+			rec.ID = sim.S(fmt.Sprintf("_cp%08x", r.Uint32()))
+			if respLevel {
+				rec.Sig = sim.DefaultSig(signer.Key, signer)
+			} else {
+				rec.Assertions[0].Sig = sim.DefaultSig(signer.Key, signer)
+			}
+			d, _ := sim.BuildResponse(rec, sim.PlainStyle())
+			return sim.Encode(d, sim.RawLevel)
+		}
+		template, _, _ := NewSP(now, tenantA)
+		warm := r.IntN(4) != 0
+		if warm {
+			_, _ = template.ValidateEncodedResponse(mk(tenantA, r.IntN(2) == 0)) // the template has been in use
+		}
+		cp := *template //nolint:govet // quiescent: no call is in flight
+		cp.IDPCertificateStore = &SpyStore{Roots: []*x509.Certificate{tenantB.X509}}
+		cs.Desc("template trusts %s, copy trusts %s, template used before copying=%v", tenantA.Key.Name, tenantB.Key.Name, warm)
+		cs.Nontrivial(fmt.Sprintf("%s/%d", cs.Description(), k))
+		level := r.IntN(2) == 0
+		_, errCopyOwn := cp.ValidateEncodedResponse(mk(tenantB, level))
+		_, errCopyOther := cp.ValidateEncodedResponse(mk(tenantA, level))
+		_, errTemplOwn := template.ValidateEncodedResponse(mk(tenantA, level))
+		_, errTemplOther := template.ValidateEncodedResponse(mk(tenantB, level))
+		switch {
+		case errCopyOther == nil:
+			cs.Violation("copy-trusts-the-template-store", "a copied provider with its own certificate store accepted a message signed by a certificate that only the template's store holds")
+		case errTemplOther == nil:
+			cs.Violation("template-trusts-the-copy-store", "the template provider accepted a message signed by a certificate that only the copy's store holds")
+		case errCopyOwn != nil:
+			cs.Violation("copy-refuses-its-own-store", "a copied provider refused a message signed by the sole member of its own store: %v", errCopyOwn)
+		case errTemplOwn != nil:
+			cs.Violation("template-refuses-its-own-store", "the template provider refused a message signed by the sole member of its store after a copy was made: %v", errTemplOwn)
+		default:
+			cs.Outcome("each-trusts-its-own-store")
+		}
+	}
 }
